@@ -38,6 +38,10 @@ pub struct Case {
     outages: Vec<(u32, u32)>,
     /// times (ms) at which bootstrapped() is called
     waiters: Vec<u32>,
+    /// serving nodes only: a stranger pings the node every `.0` ms and each reply takes `.1` ms to
+    /// send (busy event loop), while get_state() is polled every 97 ms
+    #[serde(default)]
+    busy: Option<(u16, u16)>,
     rt_seed: u64,
 }
 
@@ -70,20 +74,34 @@ impl Stage for Boot {
         (
             any::<bool>(),
             any::<bool>(),
-            prop_oneof![1 => Just(vec![]), 6 => vec(contact(), 1..8), 2 => vec(contact(), 8..40)],
+            prop_oneof![
+                1 => Just(vec![]),
+                6 => vec(contact(), 1..8),
+                2 => vec(contact(), 8..40),
+                // a crowd of prompt answering nodes plus a few silent ones: the table ends up with
+                // >= 10 good nodes, so the first bootstrap is the only one
+                3 => (vec(prop_oneof![3 => Just(0u16), 1 => 1u16..300], 10..18), 0usize..4).prop_map(|(delays, n_silent)| {
+                    let mut v: Vec<Contact> = delays.into_iter().map(|delay_ms| Contact { kind: Kind::Answer, as_node: true, as_router: false, delay_ms }).collect();
+                    v.extend((0..n_silent).map(|_| Contact { kind: Kind::Silent, as_node: true, as_router: false, delay_ms: 0 }));
+                    v
+                }),
+            ],
             outage,
             vec(prop_oneof![Just(0u32), 0u32..5_000, 0u32..200_000, 0u32..3_000_000], 0..12),
             any::<u64>(),
+            proptest::option::weighted(0.4, (300u16..1500, 10u16..70).prop_map(|(period, pct)| (period, (period as u32 * pct as u32 / 100) as u16))),
         )
-            .prop_map(|(v6, read_only, contacts, outages, waiters, rt_seed)| Case { v6, read_only, contacts, outages, waiters, rt_seed })
+            .prop_map(|(v6, read_only, contacts, outages, waiters, rt_seed, busy)| Case { v6, read_only, contacts, outages, waiters, busy, rt_seed })
             .boxed()
     }
     fn run(&self, c: &Case) -> Outcome {
         let rt = paused_rt(c.rt_seed);
         rt.block_on(async {
-            let net = SimNet::new(Box::new(Instant0));
             let node = fam_addr(c.v6, 1, 6881);
             let node_id: Id = [0x15; 20];
+            let pinger = fam_addr(c.v6, 990, 9990);
+            let busy = if c.read_only { None } else { c.busy };
+            let net = SimNet::new(Box::new(SlowSends { inner: Instant0, node, to: vec![pinger], ms: busy.map(|b| b.1 as u64).unwrap_or(0) }));
             // outage schedule
             let mut sched: Vec<(u64, u64)> = vec![]; // down intervals [a, b)
             let mut t = 0u64;
@@ -94,13 +112,26 @@ impl Stage for Boot {
             let t_up = sched.last().map(|s| s.1).unwrap_or(0);
             let sched = Arc::new(sched);
             let addrs: Vec<SocketAddr> = (0..c.contacts.len()).map(|i| fam_addr(c.v6, 100 + i as u16, 7000 + i as u16)).collect();
+            let cid = |i: usize| -> Id {
+                let mut id = [0u8; 20];
+                id[0] = (i as u8).wrapping_mul(7).wrapping_add(1);
+                id[5] = i as u8;
+                id
+            };
+            // answering contacts name the silent ones (at most 20): hearsay contacts that the bucket
+            // phase of the bootstrap then pings in vain (500 ms each), so that a bootstrap can also
+            // complete on a timer of its own, while the event loop is busy
+            // ... and the other answering contacts (at most 16), so that a world with many of them
+            // yields a table with >= 10 good nodes: such a node never re-bootstraps, and a waiter
+            // that missed the completion is never rescued by a later one
+            let mut silent_named: Vec<(Id, SocketAddr)> = c.contacts.iter().enumerate().filter(|(_, ct)| ct.kind == Kind::Silent).take(12).map(|(i, _)| (cid(i), addrs[i])).collect();
+            silent_named.extend(c.contacts.iter().enumerate().filter(|(_, ct)| ct.kind == Kind::Answer).take(16).map(|(i, _)| (cid(i), addrs[i])));
             for (i, ct) in c.contacts.iter().enumerate() {
                 let sched = sched.clone();
                 let kind = ct.kind;
                 let delay = ct.delay_ms as u64;
-                let mut id = [0u8; 20];
-                id[0] = (i as u8).wrapping_mul(7).wrapping_add(1);
-                id[5] = i as u8;
+                let id = cid(i);
+                let named = silent_named.clone();
                 spawn_puppet(&net, addrs[i], move |_raw, msg, from, now| {
                     let now = now.as_millis() as u64;
                     if sched.iter().any(|(a, b)| now >= *a && now < *b) {
@@ -112,7 +143,10 @@ impl Stage for Boot {
                     }
                     match kind {
                         Kind::Silent => vec![],
-                        Kind::Answer => vec![Out::after(delay, from, &resp(&m.tid, KResp { id: id.to_vec(), ..Default::default() }))],
+                        Kind::Answer => {
+                            let (nodes, nodes6) = node_lists(&named);
+                            vec![Out::after(delay, from, &resp(&m.tid, KResp { id: id.to_vec(), nodes, nodes6, ..Default::default() }))]
+                        }
                         Kind::KrpcError => vec![Out::after(delay, from, &KMsg { tid: m.tid.clone(), body: KBody::Error { code: 202, msg: "Server Error".into() } })],
                         Kind::Garbage => vec![Out { delay: Duration::from_millis(delay), to: from, bytes: b"d1:t4:junk1:y1:".to_vec() }],
                     }
@@ -136,6 +170,20 @@ impl Stage for Boot {
                 });
             }
 
+            if let Some((period, _)) = busy {
+                let horizon = (t_up + 700_000).min(3_600_000);
+                spawn_pinger(&net, pinger, node, 50, period as u64, (horizon / period as u64) as u32);
+                let d2 = dht.clone();
+                let n2 = net.clone();
+                tokio::spawn(async move {
+                    let mut t = 0u64;
+                    while t < horizon {
+                        t += 97;
+                        n2.sleep_until(Duration::from_millis(t)).await;
+                        let _ = d2.get_state().await;
+                    }
+                });
+            }
             let plain = routers.is_empty() && !nodes.is_empty();
             // a contact is responsive if its answer arrives within the 2.5 s the initial round waits
             let some_answerer = c.contacts.iter().any(|c| c.kind == Kind::Answer && c.as_node && c.delay_ms < 2400);
@@ -147,7 +195,8 @@ impl Stage for Boot {
             while tnow < end {
                 tnow += step;
                 net.sleep_until(Duration::from_millis(tnow)).await;
-                let lim = Duration::from_secs(1);
+                // 1 virtual second, plus the time a busy event loop may spend in one send
+                let lim = Duration::from_millis(1000 + 3 * busy.map(|b| b.1 as u64).unwrap_or(0));
                 let ok = within(lim, dht.get_state()).await.flatten().map(|s| s.is_running).unwrap_or(false)
                     && within(lim, dht.local_addr()).await.and_then(|r| r.ok()) == Some(node)
                     && within(lim, dht.load_contacts()).await.and_then(|r| r.ok()).is_some();
@@ -161,13 +210,18 @@ impl Stage for Boot {
             }
             let log = net.log();
             let res = results.lock().unwrap().clone();
+            if std::env::var_os("VERIF_DEBUG").is_some() {
+                eprintln!("t_up={t_up} waiters resolved: {res:?}; state: {:?}", within(Duration::from_secs(5), dht.get_state()).await);
+            }
             if nodes.is_empty() && routers.is_empty() {
-                if let Some(e) = log.iter().find(|e| e.from == node) {
+                // (replies to the pinger's queries are not traffic of the node's own making)
+                if let Some(e) = log.iter().find(|e| e.from == node && e.to != pinger) {
                     return Outcome::violation("traffic-without-contacts", format!("node without contacts sent a datagram to {} at {:?}", e.to, e.t));
                 }
                 for w in &c.waiters {
                     match res.iter().find(|r| r.0 == *w) {
-                        Some((_, at, true)) if *at <= *w as u64 + 1 => {}
+                        // (a busy event loop answers once its current send has returned)
+                        Some((_, at, true)) if *at <= *w as u64 + 1 + busy.map(|b| b.1 as u64).unwrap_or(0) => {}
                         other => return Outcome::violation("no-contacts-not-bootstrapped", format!("waiter registered at {w} ms: {other:?}")),
                     }
                 }
@@ -208,7 +262,7 @@ impl Stage for Boot {
         })
     }
     fn rule(&self) -> String {
-        "builder configurations: 0..40 contacts, each given as node, as router (literal ip:port) or both, each answering / silent / answering with a KRPC error / answering garbage after 0..9 s (answers later than the 2.5 s initial-round timeout count as unresponsive for the deadline); read-only on/off; outage patterns (none, 1..3 outages of 1 ms..30 min with up-times from 1 s, flapping 4..12 times with 1..2 s up-times, one outage of 10 min..2 h) during which no contact answers; 0..12 bootstrapped() callers at times 0..50 min. Oracle: API liveness sampled ~400 times over the run; no contacts => waiters true at once and no traffic; contacts => no waiter resolves before the first response reaches the node; plain nodes with an answering contact => every waiter true by max(call, network-up) + 660 s. Non-trivial: an outage > 60 s with >= 2 distinct waiter times, or a router/node overlap, or > 9 contacts".into()
+        "builder configurations: 0..40 contacts (or a crowd of 10..17 prompt answering nodes plus 0..3 silent ones, which yields >= 10 good nodes and hence a single bootstrap), each given as node, as router (literal ip:port) or both, each answering (and naming the silent ones and the other answering ones) / silent / answering with a KRPC error / answering garbage after 0..9 s (answers later than the 2.5 s initial-round timeout count as unresponsive for the deadline); read-only on/off; outage patterns (none, 1..3 outages of 1 ms..30 min with up-times from 1 s, flapping 4..12 times with 1..2 s up-times, one outage of 10 min..2 h) during which no contact answers; 0..12 bootstrapped() callers at times 0..50 min; optionally (serving nodes) a stranger pinging every 0.3..1.5 s with replies that take 10..70 % of the period to send, and get_state() polled every 97 ms (commands and state changes pile up behind a busy event loop). Oracle: API liveness sampled ~400 times over the run; no contacts => waiters true at once and no traffic; contacts => no waiter resolves before the first response reaches the node; plain nodes with an answering contact => every waiter true by max(call, network-up) + 660 s. Non-trivial: an outage > 60 s with >= 2 distinct waiter times, or a router/node overlap, or > 9 contacts".into()
     }
     fn sample(&self, c: &Case) -> serde_json::Value {
         serde_json::json!({"contacts": c.contacts.iter().take(6).map(|x| format!("{:?}/{}{}", x.kind, if x.as_node {"N"} else {""}, if x.as_router {"R"} else {""})).collect::<Vec<_>>(), "n_contacts": c.contacts.len(), "outages": c.outages, "waiters": c.waiters})
